@@ -52,6 +52,9 @@ SHAPES = [
      'spec[n_1]: forall X (q(X) -> p(X)). spec[n_0_0]: forall X (p(X) <-> q(X) and X = X).', 'p(X) :- q(X).', 'input: q/1. output: p/1.'),
     ('formula-name-equals-declaration-name', 'external-spec', 'spec[predicate_0]: forall X (p(X) -> q(X)). '
      'spec[type_symbol_0]: p(a) -> q(a). spec[symbol_order_0]: p(b) -> q(b).', 'p(X) :- q(X).', 'input: q/1. output: p/1.'),
+    ('formula-name-equals-declaration-stem', 'external-spec', 'spec[predicate]: forall X (p(X) -> q(X)). spec[type_symbol]: p(a) -> q(a). '
+     'spec[symbol_order]: p(b) -> q(b). spec[type_function_constant]: forall X (p(X) -> X != n). spec[formula]: forall X (q(X) and X != n -> p(X)). '
+     'spec[formula_0]: #true. spec[predicate_1]: #true. assumption[symbol_order_1]: n != a.', 'p(X) :- q(X), X != n.', 'input: n. input: q/1. output: p/1.'),
     ('outline-with-renamed-symbol', 'external-outline', 'q :- p(X), X != q. r(X) :- p(X), not q.', 'q :- p(X), q != X. r(X) :- p(X), not q.',
      'input: p/1. output: r/1. output: q/0.',
      'lemma(forward)[l1]: forall X (p(X) and X != q -> q). inductive-lemma[il]: forall N$i (N$i >= 0 -> (p(N$i) -> N$i != q)). '
